@@ -10,6 +10,7 @@ EXPLANATION = (
     "Message can change bytes observable through another (Arc<Vec<u8>> hands out &mut only when unique), (iii) Clone "
     "for Message and Chunk is derived (clones share the Arc, own their window), (iv) the window fields start/end/bytes "
     "and Message.chunks are written only inside the message module. (v) Message::eq answers true only where the byte-wise comparison of the two messages did. Obligations = these facts; all must hold. "
+    "(vi, M-WINDOW) a chunk's window is never computed from the length of the shared buffer behind it (only Chunk::new, which wraps a fresh buffer, may): otherwise bytes removed by an earlier slice or cut come back. "
     "Equivalence of the window arithmetic with the Vec<u8> model (first sentence) is numerical and not decided.")
 ASSUMPTIONS = [
     "unsafe blocks that come from the expansion of tokio::select! are tokio's and do not touch Message",
